@@ -966,7 +966,9 @@ def inf_case(draw: Any) -> dict[str, Any]:
 
 @st.composite
 def case_strategy(draw: Any, no_inf: bool = False) -> dict[str, Any]:
-    kind = draw(st.sampled_from(["pair"] * 22 + ["ineq"] * 8 + ["numbers"] * 4 + ["vector"] * 6 + ([] if no_inf else ["inf"])))
+    kind = draw(st.sampled_from(["pair"] * 22 + ["ineq"] * 8 + ["numbers"] * 4 + ["vector"] * 6 + ["fexp"] + ([] if no_inf else ["inf"])))
+    if kind == "fexp":
+        return draw(fexp_case())
     if kind == "inf":
         return draw(inf_case())
     if kind == "pair":
@@ -996,6 +998,60 @@ def _strip_float_zero(case: dict[str, Any]) -> tuple[dict[str, Any], bool]:
     return new, changed
 
 
+# ------------------------------------------------------------------------------------------------
+# inequivalent dimensions that differ only by a NON-integral exponent written as a float (m**1.5 against m**2,
+# Hz**0.5 against a pure number): equal scale factors, so only the dimension check stands between them and acceptance
+
+
+@st.composite
+def fexp_case(draw: Any) -> dict[str, Any]:
+    return {"kind": "fexp", "unit": draw(st.sampled_from(["meter", "second", "hertz", "kilogram", "ampere", "kelvin"])),
+        "exp": draw(st.sampled_from(["0.5", "1.5", "2.5", "-0.5", "-1.5", "0.25"])),
+        "other": draw(st.sampled_from(["round-half-even", "floor", "ceil"])),
+        "num": draw(st.integers(2, 99)), "entry": draw(st.sampled_from(["assert_equal", "approx_equal_quantities", "bare-rhs", "vector"])),
+        "swap": draw(st.booleans())}
+
+
+def judge_fexp(case: dict[str, Any]) -> tuple[list[tuple[str, str]], list[str], bool]:
+    import math
+    import sympy
+    from sympy.physics import units as su
+    from symplyphysics import Quantity, QuantityVector
+    from symplyphysics.core.approx import approx_equal_quantities, assert_equal, assert_equal_vectors
+    e = float(case["exp"])
+    n = {"round-half-even": round(e), "floor": math.floor(e), "ceil": math.ceil(e)}[case["other"]]
+    u = getattr(su, case["unit"])
+    # the scale factor (gram-based for mass) of both operands is the same number
+    gram = sympy.Integer(1000) if case["unit"] == "kilogram" else sympy.Integer(1)
+    x = sympy.Integer(case["num"])
+    a = Quantity(x * u**sympy.Float(e))
+    sf = sympy.sympify(a.scale_factor)
+    b_val = sf / gram**n
+    b: Any = Quantity(b_val * u**n) if n != 0 else Quantity(b_val)
+    labels = ["fexp:" + case["entry"], "fexp:other=" + ("number" if n == 0 else "integer-power")]
+    lhs, rhs = (b, a) if case["swap"] else (a, b)
+    entry = case["entry"]
+    if entry == "bare-rhs":
+        if n != 0:
+            return [], labels + ["fexp:degenerate"], False
+        lhs, rhs = a, b_val  # a bare number on the right, no dimension argument
+
+    def call() -> Any:
+        if entry == "approx_equal_quantities":
+            return approx_equal_quantities(lhs, rhs)
+        if entry == "vector":
+            return assert_equal_vectors(QuantityVector([lhs, lhs]), QuantityVector([rhs, rhs]))
+        return assert_equal(lhs, rhs)
+
+    outcome = _outcome(call)
+    labels.append("fexp:outcome=" + outcome.split(":")[0])
+    if outcome in ("pass",):
+        return [("accepted-inequivalent-dimensions:float-exponent",
+            f"{entry}({lhs.dimension if hasattr(lhs, 'dimension') else lhs} value {x}, {getattr(rhs, 'dimension', rhs)}) passed although the "
+            f"dimensions {case['unit']}**{e} and {case['unit']}**{n} are inequivalent")], labels, True
+    return [], labels, True
+
+
 def judge(case: dict[str, Any], excluded: frozenset[str] = frozenset()) -> tuple[list[tuple[str, str]], list[str], bool]:
     extra = []
     if KEY_FZ in excluded:
@@ -1011,6 +1067,8 @@ def judge(case: dict[str, Any], excluded: frozenset[str] = frozenset()) -> tuple
         res, labels, nt = judge_vector(case)
     elif kind == "inf":
         res, labels, nt = judge_inf(case)
+    elif kind == "fexp":
+        res, labels, nt = judge_fexp(case)
     else:
         raise ValueError(kind)
     return res, labels + extra, nt
